@@ -28,6 +28,39 @@ def record(workdir):
     return len(evs), recs, p.returncode
 
 
+def level_events(workdir):
+    """all "level" events of the recorded test run, de-duplicated, ASCII only (they go through TLC)"""
+    trace = os.path.join(workdir, "harvest.ndjson")
+    out, seen = [], set()
+    with open(trace) as f:
+        for l in f.read().split("\n"):
+            if not l:
+                continue
+            e = json.loads(l)
+            if e["ev"] != "level":
+                continue
+            o = {"argv": e["argv"], "subs": e["subs"], "nargs": e["nargs"], "help": e["help"]}
+            k = json.dumps(o)
+            if k in seen or not k.isascii():
+                continue
+            seen.add(k)
+            out.append(o)
+    return out
+
+
+def validate_levels(rep, workdir):
+    evs = level_events(workdir)
+    if not evs:
+        return 0, []
+    with open(os.path.join(workdir, "leveltrace.json"), "w") as f:
+        json.dump(evs, f)
+    res = core.run_tlc(workdir, "LevelTrace", timeout=1200)
+    core.tlc_must_finish(res, "LevelTrace")
+    rep.add_tlc(res)
+    bad = [evs[json.loads(p)["ei"]] for p in set(res.printed("LT"))]
+    return len(evs), bad
+
+
 def to_cases(recs):
     """-> progs, specs (ast,str,prog), groups (rel single), recorded verdicts, skipped (unparsable)"""
     progs, pidx, specs, sidx, groups, verdicts, skipped = [], {}, [], {}, [], [], []
